@@ -116,7 +116,7 @@ func c19Gen(r *RNG, id string) *Case {
 	case "snps", "snps-agg":
 		// one aggregate case in three with a table of several thousand rows (a writer that batches its rows makes few,
 		// large write calls: each of them can fail)
-		forceDenseWide = kind == "snps-agg" && r.Chance(1, 3)
+		forceDenseWide = kind == "snps-agg" && atScale(r, 3)
 		base = c03Gen(r, id, kind == "snps-agg")
 		forceDenseWide = false
 	case "variants", "variants-agg":
